@@ -16,6 +16,8 @@ import time
 VERIF = os.path.dirname(os.path.dirname(os.path.abspath(__file__)))
 REPO = os.environ.get("VERIF_REPO_DIR", "/repo")
 BUILD = os.environ.get("VERIF_BUILD_DIR", os.path.join(VERIF, "build"))
+# evidence/ and replays/ go to /verif unless a scratch tree is being checked (mutation runs)
+OUT = os.environ.get("VERIF_OUT_DIR", VERIF if REPO == "/repo" else os.path.join(BUILD, "out"))
 NCPU = int(os.environ.get("VERIF_JOBS", str(os.cpu_count() or 4)))
 CXX = "clang++"
 CC = "clang"
@@ -67,11 +69,13 @@ def engine_hash():
     global _engine_hash
     if _engine_hash is None:
         h = hashlib.sha1()
-        for sub in ("engine", "ref"):
+        for sub in ("engine", "ref", "harness"):
             root = os.path.join(VERIF, sub)
             for d, dirs, files in os.walk(root):
                 dirs.sort()
                 for f in sorted(files):
+                    if sub == "harness" and not f.endswith((".hpp", ".h")):
+                        continue  # harness .cpp files are hashed individually; shared headers here
                     p = os.path.join(d, f)
                     h.update(os.path.relpath(p, root).encode())
                     with open(p, "rb") as fh:
@@ -367,7 +371,7 @@ def finish(prop, tier, res, t0, level="model_checking", rule="", assumptions=(),
             res.errors.append("failure %s of %s did not reproduce on replay (harness nondeterministic?) %s"
                               % (sig, f["harness"], detail[-500:]))
             continue
-        d = os.path.join(VERIF, "replays", prop)
+        d = os.path.join(OUT, "replays", prop)
         os.makedirs(d, exist_ok=True)
         fn = os.path.join(d, re.sub(r"[^A-Za-z0-9_.-]+", "_", sig)[:100] + "-" + _sha(sig)[:8] + ".json")
         with open(fn, "w") as fh:
@@ -397,8 +401,8 @@ def finish(prop, tier, res, t0, level="model_checking", rule="", assumptions=(),
     ev = {"property_id": prop, "tier": tier, "seed": seed, "level": level, "coverage": cov,
           "assumptions": list(assumptions), "wall_s": round(time.time() - t0, 2),
           "violations": len(violations)}
-    os.makedirs(os.path.join(VERIF, "evidence"), exist_ok=True)
-    with open(os.path.join(VERIF, "evidence", prop + ".json"), "w") as fh:
+    os.makedirs(os.path.join(OUT, "evidence"), exist_ok=True)
+    with open(os.path.join(OUT, "evidence", prop + ".json"), "w") as fh:
         json.dump(ev, fh, indent=1)
     for sig, text, n in known_hit:
         print("KNOWN-FINDING: property=%s sig=%s %s (%d case(s) this run)" % (prop, sig, text, n))
